@@ -63,6 +63,8 @@ def _eval_under(model, v):
     """Evaluate a (possibly symbolic / structured) observation under a model."""
     if isinstance(v, SymInt | SymBool | SymStr):
         return _ctx.z3_to_py(model.eval(v.z, model_completion=True))
+    if hasattr(v, "eval_under"):
+        return v.eval_under(model)
     if isinstance(v, list):
         return [_eval_under(model, x) for x in v]
     if isinstance(v, tuple):
